@@ -91,25 +91,25 @@ func (e *env) freshAddr() common.Address {
 // blk is a block under construction: the steps of StateProcessor.Process done
 // one at a time with the exported functions the processor itself uses.
 type blk struct {
-	e        *env
-	parent   *types.Block
-	header   *types.Header
-	st       *state.StateDB
-	gp       *core.GasPool
-	txs      []*types.Transaction
-	receipts []*types.Receipt
-	kinds    []string
-	cum      uint64 // sum of the gas of the receipts so far (this check's own sum)
-	cur      dumpT  // committed content after the last step
-	byz      bool
-	eip158   bool
-	num      uint64
+	e         *env
+	parent    *types.Block
+	header    *types.Header
+	st        *state.StateDB
+	gp        *core.GasPool
+	txs       []*types.Transaction
+	receipts  []*types.Receipt
+	kinds     []string
+	cum       uint64 // sum of the gas of the receipts so far (this check's own sum)
+	sumLimits uint64 // sum of the gas limits of the transactions so far
+	cur       dumpT  // committed content after the last step
+	byz       bool
+	eip158    bool
+	num       uint64
 	// an existing empty coinbase was touched inside a frame that was rolled back
 	coinbaseTouchReverted bool
 }
 
 const causeTouchedCoinbase = "empty_coinbase_touched_in_reverted_frame"
-
 
 func (e *env) begin(coinbase common.Address, limitDelta int64) *blk {
 	parent := e.bc.CurrentBlock()
@@ -280,7 +280,7 @@ func (b *blk) apply(p *plan) bool {
 	rc, _, err := core.ApplyTransaction(e.cfg, e.bc, nil, b.gp, b.st, b.header, tx, &b.header.GasUsed, vm.Config{Debug: true, Tracer: tr})
 	e.txCount++
 	if err != nil {
-		c.ViolateInput("valid_tx_rejected", p.op(), p.Kind,
+		c.ViolateInput("valid_tx_rejected", p.op(), b.boundary(p),
 			fmt.Sprintf("block %d (%s) position %d: %s satisfies nonce, prepayment, value, intrinsic-gas and block-gas conditions but ApplyTransaction returned %q", b.num, e.cfgName, len(b.txs), p.describe(), err),
 			b.witness(p, tx, nil, nil, tr))
 		e.broken = true
@@ -298,8 +298,29 @@ func (b *blk) apply(p *plan) bool {
 	b.receipts = append(b.receipts, rc)
 	b.kinds = append(b.kinds, p.Kind)
 	b.cum += rc.GasUsed
+	b.sumLimits += p.Gas
 	b.cur = post
 	return true
+}
+
+// boundary names the edge of validity a plan sits on (the cause of a wrongly
+// refused transaction), or its template when it is well inside.
+func (b *blk) boundary(p *plan) string {
+	a := b.cur.get(p.S.Addr)
+	need := new(big.Int).Mul(new(big.Int).SetUint64(p.Gas), p.Price)
+	switch {
+	case a.Bal.Sign() > 0 && a.Bal.Cmp(need) == 0:
+		return "balance_equals_prepayment"
+	case a.Bal.Sign() > 0 && new(big.Int).Add(need, p.Value).Cmp(a.Bal) == 0:
+		return "balance_equals_prepayment_plus_value"
+	case p.Gas == b.gasLeft():
+		return "gas_limit_equals_block_rest"
+	case p.Gas == refIntrinsic(p.Data, p.To == nil):
+		return "gas_limit_equals_intrinsic"
+	case p.Gas > b.header.GasLimit-b.sumLimits:
+		return "gas_limit_above_block_limit_minus_earlier_limits"
+	}
+	return p.Kind
 }
 
 type txWitness struct {
@@ -579,6 +600,10 @@ func (b *blk) judge(p *plan, tx *types.Transaction, rc *types.Receipt, tr *trace
 	}
 	if p.Gas == b.gasLeft() {
 		c.Count("gas_limit_equals_block_rest")
+	}
+	if b.sumLimits+p.Gas > b.header.GasLimit {
+		// fits only because earlier transactions gave back what they did not use
+		c.Count("fits_only_through_returned_gas")
 	}
 	if p.Price.Sign() == 0 {
 		c.Count("price_zero")
